@@ -26,6 +26,12 @@
 (*   cost, costv  every cost value under the current specification         *)
 (*   costfin      all of them finite and >= 0;  sum = summary();  cs       *)
 (*   fperr        "" or the exception cost / summary / forward raised      *)
+(*   copy_ok      the model can be deep-copied (strict copy.deepcopy that   *)
+(*                only detaches non-leaf tensors)                          *)
+(*   dkeys        id of {module name -> PUBLIC keys of vars(module)}       *)
+(* dk  = [new, del |-> << [m |-> module type, k |-> key, nas |-> the module *)
+(*       is a searchable layer / quantiser / combiner] >>, nnew, ndel]     *)
+(*       what the call did to the public attribute key sets                *)
 (* ret = what the call returned: [k |-> "cost", a |-> value id, b |-> index*)
 (*       in costv] | [k |-> "sum", a] | [k |-> "export", a |-> structure,  *)
 (*       b |-> weights, c |-> eval output] | [k |-> "none"]                *)
@@ -34,6 +40,9 @@
 (* Property clauses (VIOLATION):                                           *)
 (*   raises       a call of the alphabet raised                            *)
 (*   neutral      an observer call changed a fingerprint component         *)
+(*   usable       after an observer call the model can no longer be        *)
+(*                deep-copied, or vars() of a module has another public    *)
+(*                key set than before the call                             *)
 (*   setter       cost_specification := c changed anything but the costs   *)
 (*   erasure      after a non-observer call the run with observers and the *)
 (*                run without differ                                       *)
@@ -47,6 +56,13 @@
 (*        kept its mode, and nothing changed that this does not explain    *)
 (*   F35  MPS export() overwrote the stored theta_alpha (soft -> one-hot)  *)
 (*        and nothing changed that this does not explain                   *)
+(*   F36  MPS cost / get_cost: MPSAdd.get_cost updates its own vars(self)  *)
+(*        inside a vmap'ed function: new keys in_precision, in_format,     *)
+(*        in_channels, out_channels, output_shape on MPSAdd modules and a  *)
+(*        dead BatchedTensor that makes deep copies / pickling fail        *)
+(*   F37  cost / get_cost update vars(layer) of layers that are not        *)
+(*        searchable (fixed layers under full_cost, SuperNet branch        *)
+(*        layers): new key output_shape on the user's layers               *)
 (* Prediction clauses (drift): mode / coefficient class / BN counter after *)
 (* forward, train(), eval() as RefNext computes them from the previous     *)
 (* observation; returned value = fingerprint value.                        *)
@@ -72,7 +88,8 @@ BufF   == {"bbn", "bth", "bother", "keys", "nbt"}
 ModeF  == {"wt", "st", "flags"}
 OutF   == {"out", "oute"}
 CostF  == {"cost", "costfin"}
-AllF   == ParamF \cup BufF \cup ModeF \cup OutF \cup CostF \cup {"rg", "theta", "sum"}
+UseF   == {"copy_ok", "dkeys"}
+AllF   == ParamF \cup BufF \cup ModeF \cup OutF \cup CostF \cup UseF \cup {"rg", "theta", "sum"}
 
 Changed(p, o) == {f \in AllF : p[f] # o[f]}
 
@@ -82,6 +99,20 @@ F35Fields == {"bth", "theta", "cost"}
 \* ... and their consequences at later calls (the seed stays in eval mode: no BatchNorm update, hard coefficients)
 F16Later  == {"st", "flags", "out", "oute", "bbn", "nbt", "bth", "theta", "cost"}
 F35Later  == {"bth", "theta", "cost"}
+
+F36Fields == {"copy_ok", "dkeys"}
+F37Fields == {"dkeys"}
+F36Keys   == {"in_precision", "in_format", "in_channels", "out_channels", "output_shape"}
+
+Range(q) == {q[i] : i \in DOMAIN q}
+IsF36Key(x) == x.m = "MPSAdd" /\ x.k \in F36Keys
+IsF37Key(x) == ~x.nas /\ x.k = "output_shape"
+\* signatures: a cost call whose only effect on the attribute key sets is the named one
+F36Sig(kind, e) == /\ kind = "mps" /\ e.act.a \in {"cost", "getcost"} /\ e.dk.ndel = 0 /\ e.dk.nnew > 0
+                   /\ \E x \in Range(e.dk.new) : IsF36Key(x)
+                   /\ \A x \in Range(e.dk.new) : IsF36Key(x) \/ IsF37Key(x)
+F37Sig(e) == /\ e.act.a \in {"cost", "getcost"} /\ e.dk.ndel = 0 /\ e.dk.nnew > 0
+             /\ \A x \in Range(e.dk.new) : IsF37Key(x)
 
 F16Sig(a, p, o) == a.a = "export" /\ p.st = "T" /\ o.st = "F" /\ o.wt = p.wt
 F35Sig(kind, a, p, o) == kind = "mps" /\ a.a = "export" /\ p.theta = "soft" /\ o.theta = "hard" /\ p.bth # o.bth
@@ -95,21 +126,40 @@ ActStr(a) == IF a.a = "export" THEN (IF a.nobn THEN "export(add_bn=False)" ELSE 
 (***************************************************************************)
 (* one observer call                                                       *)
 (***************************************************************************)
-ObserverVerdict(kind, a, p, o, where) ==
-    LET ch  == Changed(p, o)
+ObserverVerdict(kind, e, p, where) ==
+    LET a   == e.act
+        o   == e.obs
+        ch  == Changed(p, o)
         s16 == F16Sig(a, p, o)
         s35 == F35Sig(kind, a, p, o)
+        s36 == F36Sig(kind, e)
+        s37 == F37Sig(e)
         expl == (IF s16 THEN F16Fields ELSE {}) \cup (IF s35 THEN F35Fields ELSE {})
+                \cup (IF s36 THEN F36Fields ELSE {}) \cup (IF s37 THEN F37Fields ELSE {})
+        bad  == ch \ expl
     IN  IF ch = {} THEN OK
-        ELSE IF ch \subseteq expl /\ s16
+        ELSE IF bad = {} /\ s16
         THEN Known("known:F16:C18.neutral: export() leaves the inner model in eval mode while the wrapper stays in "
                    \o "training mode (" \o where \o ": changed " \o ToString(ch) \o ")")
-        ELSE IF ch \subseteq expl /\ s35
+        ELSE IF bad = {} /\ s35
         THEN Known("known:F35:C18.neutral: MPS.export() overwrites the stored theta_alpha with the eval-mode one-hot "
                    \o "sample; cost / state_dict differ until the next forward (" \o where \o ": changed "
                    \o ToString(ch) \o ")")
-        ELSE Viol("C18.neutral at " \o where \o ": observer call changed " \o ToString(ch \ expl)
-                  \o (IF expl # {} THEN " (besides " \o ToString(ch \cap expl) \o ")" ELSE ""))
+        ELSE IF bad = {} /\ s36
+        THEN Known("known:F36:C18.usable: MPSAdd.get_cost writes into its own vars(self) inside a vmap'ed function: "
+                   \o (IF ~o.copy_ok THEN "the model can no longer be deep-copied / pickled and " ELSE "")
+                   \o ToString(e.dk.nnew) \o " attribute(s) appear on modules (" \o where \o ": " \o ToString(e.dk.new) \o ")")
+        ELSE IF bad = {} /\ s37
+        THEN Known("known:F37:C18.usable: the cost computation updates vars(layer) of layers that are not searchable: "
+                   \o ToString(e.dk.nnew) \o " new attribute(s) 'output_shape' on the user's layers (" \o where \o ": "
+                   \o ToString(e.dk.new) \o ")")
+        ELSE IF bad \subseteq UseF
+        THEN Viol("C18.usable at " \o where \o ": after the observer call "
+                  \o (IF "copy_ok" \in bad THEN "the model can no longer be deep-copied; " ELSE "")
+                  \o (IF "dkeys" \in bad THEN "vars() of modules changed: new " \o ToString(e.dk.new) \o " removed " \o ToString(e.dk.del)
+                      ELSE ""))
+        ELSE Viol("C18.neutral at " \o where \o ": observer call changed " \o ToString(bad \ UseF)
+                  \o (IF ch \ (bad \ UseF) # {} THEN " (besides " \o ToString(ch \ (bad \ UseF)) \o ")" ELSE ""))
 
 (***************************************************************************)
 (* one non-observer call: frame of the setter, erasure                     *)
@@ -122,13 +172,21 @@ SetterVerdict(a, p, o, where) ==
             ELSE OK
 
 TaintExplains(taint) == (IF "F16" \in taint THEN F16Later ELSE {}) \cup (IF "F35" \in taint THEN F35Later ELSE {})
+                        \cup (IF "F36" \in taint THEN F36Fields ELSE {}) \cup (IF "F37" \in taint THEN F37Fields ELSE {})
+
+\* the finding an erasure mismatch is attributed to: the first (in this order) that explains one of the differing fields
+TaintId(taint, ch) ==
+    IF "F16" \in taint /\ ch \cap F16Later # {} THEN "F16"
+    ELSE IF "F35" \in taint /\ ch \cap F35Later # {} THEN "F35"
+    ELSE IF "F36" \in taint /\ ch \cap F36Fields # {} THEN "F36"
+    ELSE "F37"
 
 ErasureVerdict(e, taint, where) ==
     IF ~e.ref.has THEN OK
     ELSE LET ch == Changed(e.ref.obs, e.obs) \cup (IF e.ref.obs.cs # e.obs.cs THEN {"cs"} ELSE {})
          IN IF ch = {} THEN OK
             ELSE IF taint # {} /\ ch \subseteq TaintExplains(taint)
-            THEN Known("known:" \o (IF "F16" \in taint THEN "F16" ELSE "F35") \o ":C18.erasure: after an earlier export() "
+            THEN Known("known:" \o TaintId(taint, ch) \o ":C18.erasure: after an earlier observer call "
                        \o "the run differs from the run without observer calls (" \o where \o ": " \o ToString(ch) \o ")")
             ELSE Viol("C18.erasure at " \o where \o ": the run with observer calls and the run without differ in "
                       \o ToString(ch \ TaintExplains(taint)))
@@ -165,7 +223,7 @@ StepVerdict(kind, hard, hasbn, e, p, taint, where) ==
     IN  IF e.err # "" THEN Viol("C18.raises at " \o where \o ": " \o e.err)
         ELSE IF o.fperr # "" THEN Viol("C18.raises after " \o where \o ": on the model as it is now, " \o o.fperr)
         ELSE IF ~o.costfin THEN Viol("C18.cost at " \o where \o ": a cost value is not finite / negative")
-        ELSE IF IsObserver(a) THEN Worse(ObserverVerdict(kind, a, p, o, where), PredVerdict(kind, hard, hasbn, e, p, where))
+        ELSE IF IsObserver(a) THEN Worse(ObserverVerdict(kind, e, p, where), PredVerdict(kind, hard, hasbn, e, p, where))
         ELSE LET v1 == SetterVerdict(a, p, o, where) IN IF Lvl(v1) = 3 THEN v1
         ELSE LET v2 == ErasureVerdict(e, taint, where) IN IF Lvl(v2) = 3 THEN v2
         ELSE Worse(v2, PredVerdict(kind, hard, hasbn, e, p, where))
@@ -174,6 +232,8 @@ NewTaint(kind, e, p, taint) ==
     IF ~IsObserver(e.act) THEN taint
     ELSE taint \cup (IF F16Sig(e.act, p, e.obs) THEN {"F16"} ELSE {})
                \cup (IF F35Sig(kind, e.act, p, e.obs) THEN {"F35"} ELSE {})
+               \cup (IF F36Sig(kind, e) THEN {"F36", "F37"} ELSE {})      \* (an F36 call may also write output_shape on fixed layers)
+               \cup (IF F37Sig(e) THEN {"F37"} ELSE {})
 
 RECURSIVE Walk(_, _, _, _, _, _)
 Walk(t, i, p, taint, acc, dummy) ==
